@@ -6,7 +6,7 @@ import ast
 from ..model import CFG
 from . import names, counters
 from .common import site_of
-from .flow import (helpers_of, Oblig, calls, events, deps_of, arg_deps, SELF, P, is_worklist_closure, result_locs)
+from .flow import (own, helpers_of, Oblig, calls, events, deps_of, arg_deps, SELF, P, is_worklist_closure, result_locs)
 
 EXPLANATION = (
     "Decides: remove_useless_symbols filters by generating first and computes reachability on the filtered grammar, "
@@ -45,7 +45,7 @@ def run(eng, rep, tier):
     ob.decide("R1", "C09.1", fi, "result-filtered-by-reachable", has_reach,
               "the result depends on the reachable symbols", "the result is not filtered by reachable symbols", summ,
               site=site_of(prog, fi, fi.node))
-    news = [ev for ev in summ.events if ev.kind == "new" and ev.callee == CFG]
+    news = [ev for ev in own(summ) if ev.kind == "new" and ev.callee == CFG]
     last = news[-1] if news else None
     okp = last is not None and any(isinstance(d, tuple) and d[0] == "REACHABLE" for d in
                                    deps_of(last.args[3] if len(last.args) > 3 else dict(last.kwargs).get("productions")))
@@ -130,7 +130,7 @@ def run(eng, rep, tier):
     # -------------------------------------------------------------- C09.3 pipeline order
     fi = prog.method("CFG", "to_normal_form")
     summ = interp.run_entry(fi, CFG)
-    order = [ev for ev in summ.events if ev.kind == "call" and ev.callee.rsplit(".", 1)[-1] in
+    order = [ev for ev in own(summ) if ev.kind == "call" and ev.callee.rsplit(".", 1)[-1] in
              ("remove_useless_symbols", "remove_epsilon", "eliminate_unit_productions")]
     seq = [ev.callee.rsplit(".", 1)[-1] for ev in order]
     want = ["remove_useless_symbols", "remove_epsilon", "remove_useless_symbols", "eliminate_unit_productions",
@@ -141,8 +141,8 @@ def run(eng, rep, tier):
               "useless -> epsilon -> useless -> unit -> useless, each on the previous result",
               "the clean-up pipeline of to_normal_form is %s (expected %s, chained)" % (" -> ".join(seq), " -> ".join(want)),
               summ, site=site_of(prog, fi, fi.node))
-    lift = [ev for ev in summ.events if ev.kind == "call" and ev.callee.endswith("_get_productions_with_only_single_terminals")]
-    deco = [ev for ev in summ.events if ev.kind == "call" and ev.callee.endswith("_decompose_productions")]
+    lift = [ev for ev in own(summ) if ev.kind == "call" and ev.callee.endswith("_get_productions_with_only_single_terminals")]
+    deco = [ev for ev in own(summ) if ev.kind == "call" and ev.callee.endswith("_decompose_productions")]
     okf = bool(lift) and bool(deco) and all(ev.args and lift[0].result is not None and
                                              (ev.args[0].alias & lift[0].result.alias) for ev in deco)
     ob.decide("PHASE", "C09.3", fi, "fast-path-lift-before-binarise", okf,
